@@ -133,6 +133,7 @@ def step (st : St) (cmd : String) (args : List String) : St × String :=
   | "rmtrackfrom", [v, t] => withCrate st v fun c => withTrack st t fun t => apply st s (.removeTrackFrom c t)
   | "cleartracks", [v] => withCrate st v fun c => apply st s (.clearTracks c)
   | "v1.mktrack", [v, _] => apply st s .createTrack (fun st i => { st with tvars := put st.tvars v i })
+  | "v1.mktrack", [v, _, _] => apply st s .createTrack (fun st i => { st with tvars := put st.tvars v i })
   | "rmtrack", [v] => withTrack st v fun t => apply st s (.removeTrack t)
   | "getcrate", [v, i] =>
     match i.toInt? with
